@@ -15,7 +15,7 @@ META = dict(
     property="C23",
     level="fault_enumeration",
     technique="generated responses (h11 + hand grammar) x every truncation point x segmentation x deliverBody timing against a reference response parser",
-    level_text="For each generated response every truncation point 0..len(wire) is executed (connection loss after that many bytes), with a generated segmentation, deliverBody timing (in the callback / after k deliveries / after the loss / never), a transport that does or does not stop reading when paused, persistent or not. A fixed set of small responses is additionally run with every (truncation, single cut) pair. Bounded by the generated response shapes (bodies <= ~60 bytes, <= 2 interim responses (which may carry entity and connection-control / framing headers of their own), <= 4 chunks).",
+    level_text="For each generated response every truncation point 0..len(wire) is executed (connection loss after that many bytes), with a generated segmentation, deliverBody timing (in the callback / after k deliveries / after the loss / never), a transport that ignores pauseProducing / stops reading while paused / additionally hands the held bytes over from inside resumeProducing(), persistent or not; in a third of the random cases (and for every small-scope response) the complete response is followed by a second request on the same persistent connection, issued from the body consumer's connectionLost(ResponseDone) or afterwards, whose exchange is judged by the same oracle. A fixed set of small responses is additionally run with every (truncation, single cut) pair. Bounded by the generated response shapes (bodies <= ~60 bytes, <= 2 interim responses (which may carry entity and connection-control / framing headers of their own), <= 4 chunks).",
     level_note="Trusted: the reference parser ref_parse (written from RFC 9112 sec. 2-7 for the generated grammar), h11 as serializer, the StringTransport double. Responses are well formed except for four marked malformed classes whose only asserted outcome is 'exactly one failure'. While the request body is still being sent only exactly-once is asserted (request() documents RequestTransmissionFailed there).",
     design_ref="§5 C23",
     rule="case = (request method, response structure, trunc, cuts, deliverBody timing, honour_pause, persistent, loss kind). non-trivial = the loss falls after the header block and before the end of a length/chunk-delimited body, or anywhere in a close-delimited body (i.e. inside body data or chunk framing); distinct by (method, wire bytes, trunc).",
@@ -278,6 +278,7 @@ def _mk_objects():
     class Body(Protocol):
         def __init__(self):
             self.events = []
+            self.on_lost = None
 
         def makeConnection(self, transport):
             self.events.append(("made", None))
@@ -288,6 +289,18 @@ def _mk_objects():
 
         def connectionLost(self, reason):
             self.events.append(("lost", reason))
+            if self.on_lost is not None:
+                self.on_lost(reason)
+
+    class Transport(StringTransport):
+        """StringTransport that can behave like a buffering transport: bytes held
+        back while it was paused are handed over from inside resumeProducing()"""
+        on_resume = None
+
+        def resumeProducing(self):
+            StringTransport.resumeProducing(self)
+            if self.on_resume is not None:
+                self.on_resume()
 
     @implementer(IBodyProducer)
     class Producer:
@@ -313,7 +326,7 @@ def _mk_objects():
         def resumeProducing(self):
             pass
 
-    return Body, Producer, StringTransport
+    return Body, Producer, Transport
 
 
 _OBJ = None
@@ -329,7 +342,7 @@ def run_case(ctx, case):
     from twisted.web.http_headers import Headers
     if _OBJ is None:
         _OBJ = _mk_objects()
-    Body, Producer, StringTransport = _OBJ
+    Body, Producer, Transport = _OBJ
 
     method = case["method"]
     resp = case["resp"]
@@ -338,11 +351,15 @@ def run_case(ctx, case):
     plan = wire if trunc is None else wire[:trunc]
     segs = [s for s in harness.apply_cuts(plan, case.get("cuts", "whole")) if s]   # a transport never delivers b""
     deliver = case.get("deliver", ("cb",))
-    honour = bool(case.get("honour_pause"))
+    # False: the transport ignores pauseProducing; True: it stops reading while
+    # paused; "sync": it stops reading and hands the held bytes over from inside
+    # resumeProducing() (in-memory / buffering transports do)
+    honour = case.get("honour_pause") or False
     reqbody = case.get("reqbody", "none")     # none | done | pending | pending_cl
     malformed = resp.get("malformed")
+    fu = case.get("followup")                 # a second request on the same (persistent) connection
 
-    tr = StringTransport(lenient=True)
+    tr = Transport(lenient=True)
     proto = HTTP11ClientProtocol()
     proto.makeConnection(tr)
     producer = None
@@ -352,7 +369,8 @@ def run_case(ctx, case):
                   persistent=bool(case.get("persistent")))
     fired = []
     body = Body()
-    st_ = dict(delivered_body=False, response=None, since=0)
+    st_ = dict(delivered_body=False, response=None, since=0, pos=0, in_dr=False, delivered=b"", dead=False,
+               sync_segments=0, depth=0)
 
     def give_body():
         if not st_["delivered_body"] and st_["response"] is not None:
@@ -368,100 +386,173 @@ def run_case(ctx, case):
     def on_err(f):
         fired.append(("err", f))
 
+    def pump():
+        """deliver the planned segments for as long as the transport would"""
+        st_["depth"] += 1
+        try:
+            while st_["pos"] < len(segs) and not st_["dead"]:
+                if tr.disconnecting or tr.disconnected:
+                    break
+                if (deliver[0] == "after" and st_["response"] is not None
+                        and not st_["delivered_body"] and st_["since"] >= deliver[1]):
+                    give_body()
+                if honour and tr.producerState == "paused":
+                    if deliver[0] == "after":
+                        give_body()          # nothing else can happen on this connection
+                    if tr.producerState == "paused":
+                        break
+                if st_["pos"] >= len(segs) or tr.disconnecting or tr.disconnected:
+                    break                    # a nested pump (resumeProducing) took the rest
+                seg = segs[st_["pos"]]
+                st_["pos"] += 1
+                if st_["depth"] > 1:
+                    st_["sync_segments"] += 1
+                had = st_["response"] is not None
+                st_["in_dr"] = True
+                try:
+                    proto.dataReceived(seg)
+                finally:
+                    st_["in_dr"] = False
+                st_["delivered"] += seg
+                delivered = st_["delivered"]
+                if had:
+                    st_["since"] += 1
+                if not malformed:
+                    m = ref_parse(method, delivered)
+                    pending = reqbody.startswith("pending")
+                    if m["head"] == "incomplete" and fired:
+                        ctx.violation("fired-before-headers-complete", case,
+                                      f"request Deferred fired ({fired[0][0]}) after {len(delivered)} bytes; header block incomplete: {delivered!r}")
+                    if m["head"] == "ok" and not fired and not (pending and m["end"] != "done"):
+                        ctx.violation("not-fired-when-headers-complete", case,
+                                      f"header block complete after {len(delivered)} bytes but request Deferred has not fired")
+        finally:
+            st_["depth"] -= 1
+
+    def on_resume():
+        # never from inside dataReceived: the bytes of the segment being
+        # processed come first
+        if honour == "sync" and not st_["in_dr"]:
+            pump()
+    tr.on_resume = on_resume
+
+    # ---- the follow-up request -------------------------------------------------
+    fu_state = dict(started=False, how=None)
+    fired2, body2 = [], Body()
+    method2 = fu["method"] if fu else None
+    delivered2 = b""
+
+    def start_followup(how):
+        if fu is None or fu_state["started"] or proto.state != "QUIESCENT":
+            return
+        fu_state["started"] = True
+        fu_state["how"] = how
+        req2 = Request(method2, b"/y", Headers({b"host": [b"a"]}), None, persistent=True)
+
+        def ok2(r):
+            fired2.append(("ok", r))
+            r.deliverBody(body2)
+        proto.request(req2).addCallbacks(ok2, lambda f: fired2.append(("err", f)))
+
+    if fu is not None and fu.get("when") == "reentrant":
+        # what chaining "read the body, then issue the next request" does on a
+        # pooled connection: the next request starts inside connectionLost(ResponseDone)
+        body.on_lost = lambda reason: start_followup("reentrant") if reason.check(ResponseDone) else None
+
+    def judge(pfx, method, delivered, fired, body, deliver, reqbody, malformed):
+        """the oracle for one request/response exchange; returns the model"""
+        m = ref_parse(method, delivered)
+        pending = reqbody.startswith("pending")
+        ctx.check(len(fired) == 1, pfx + "request-deferred-fired-%d-times" % len(fired), case,
+                  f"fired={[(k, repr(v)[:80]) for k, v in fired]} delivered={delivered!r}")
+        kind, val = fired[0]
+        if m["head"] != "ok":
+            ctx.check(kind == "err", pfx + "response-without-complete-headers", case,
+                      f"got a response although the header block is {m['head']}: {delivered!r}")
+            if reqbody == "none" and not malformed:
+                if len(delivered) == 0:
+                    ctx.check(val.check(ResponseNeverReceived) is not None, pfx + "no-bytes-not-ResponseNeverReceived", case, repr(val))
+                else:
+                    ctx.check(val.check(ResponseFailed) is not None and val.check(ResponseNeverReceived) is None,
+                              pfx + "partial-head-not-ResponseFailed", case, repr(val))
+            ctx.check(not body.events, pfx + "body-events-without-response", case, repr(body.events))
+        else:
+            if pending and m["end"] != "done" and kind == "err":
+                # request still being written: RequestTransmissionFailed is the
+                # documented outcome; only exactly-once is asserted (a response,
+                # checked below like any other, is accepted as well).
+                ctx.count("pending-request: failure")
+            else:
+                ctx.check(kind == "ok", pfx + "failure-although-headers-complete", case,
+                          f"{val!r} delivered={delivered!r}")
+                ctx.check(isinstance(val, Response) and val.code == m["code"], pfx + "wrong-status-code", case,
+                          f"code={getattr(val, 'code', None)} expected {m['code']}")
+                got_h = sorted((n.lower(), v) for n, vs in val.headers.getAllRawHeaders() for v in vs)
+                exp_h = sorted((n, v) for n, v in m["headers"]
+                               if n not in CONTROL or (n == b"content-length" and method == b"HEAD"))
+                ctx.check(got_h == exp_h, pfx + "wrong-response-headers", case, f"got {got_h} expected {exp_h}")
+                if deliver[0] != "never":
+                    ev = body.events
+                    ctx.check(bool(ev) and ev[0][0] == "made" and sum(1 for e in ev if e[0] == "made") == 1,
+                              pfx + "body-makeConnection-not-once", case, repr(ev)[:500])
+                    losts = [e for e in ev if e[0] == "lost"]
+                    ctx.check(len(losts) == 1, pfx + "body-connectionLost-%d-times" % len(losts), case, repr(ev)[:500])
+                    ctx.check(ev[-1][0] == "lost", pfx + "body-data-after-connectionLost", case, repr(ev)[:500])
+                    data = b"".join(e[1] for e in ev if e[0] == "data")
+                    ctx.check(data == m["body"], pfx + "body-bytes-differ", case,
+                              f"delivered {data!r} expected {m['body']!r} ({m['framing']}, {m['region']})")
+                    reason = losts[0][1]
+                    if m["end"] == "done":
+                        ctx.check(reason.check(ResponseDone) is not None, pfx + "complete-body-not-ResponseDone", case,
+                                  f"{reason!r} framing={m['framing']}")
+                    elif m["end"] == "close":
+                        ctx.check(reason.check(PotentialDataLoss) is not None, pfx + "close-delimited-not-PotentialDataLoss", case,
+                                  repr(reason))
+                    else:
+                        ctx.check(reason.check(ResponseFailed) is not None, pfx + "truncated-body-not-ResponseFailed", case,
+                                  f"{reason!r} framing={m['framing']} region={m['region']} body so far {m['body']!r}")
+        return m
+
+    def signalled_at_completion(pfx, method, delivered, body):
+        m = ref_parse(method, delivered)
+        if m["head"] == "ok" and m["end"] == "done":
+            # the whole body has arrived and a consumer is connected: it is
+            # told so when the body completes, not when the connection goes
+            # (on a persistent connection that might be never)
+            n_lost = sum(1 for e in body.events if e[0] == "lost")
+            ctx.check(n_lost == 1, pfx + "complete-body-not-signalled-before-connection-loss", case,
+                      f"body complete ({m['framing']}) but consumer events are {body.events!r}"[:600])
+
     with harness.captured_log() as events:
         d = proto.request(req)
         d.addCallbacks(on_ok, on_err)
-        delivered = b""
-        for seg in segs:
-            if tr.disconnecting or tr.disconnected:
-                break
-            if (deliver[0] == "after" and st_["response"] is not None
-                    and not st_["delivered_body"] and st_["since"] >= deliver[1]):
-                give_body()
-            if honour and tr.producerState == "paused":
-                if deliver[0] == "after":
-                    give_body()          # nothing else can happen on this connection
-                if tr.producerState == "paused":
-                    break
-            had = st_["response"] is not None
-            proto.dataReceived(seg)
-            delivered += seg
-            if had:
-                st_["since"] += 1
-            if not malformed:
-                m = ref_parse(method, delivered)
-                pending = reqbody.startswith("pending")
-                if m["head"] == "incomplete" and fired:
-                    ctx.violation("fired-before-headers-complete", case,
-                                  f"request Deferred fired ({fired[0][0]}) after {len(delivered)} bytes; header block incomplete: {delivered!r}")
-                if m["head"] == "ok" and not fired and not (pending and m["end"] != "done"):
-                    ctx.violation("not-fired-when-headers-complete", case,
-                                  f"header block complete after {len(delivered)} bytes but request Deferred has not fired")
+        pump()
+        delivered = st_["delivered"]
         if not malformed and st_["delivered_body"]:
-            m = ref_parse(method, delivered)
-            if m["head"] == "ok" and m["end"] == "done":
-                # the whole body has arrived and a consumer is connected: it is
-                # told so when the body completes, not when the connection goes
-                # (on a persistent connection that might be never)
-                n_lost = sum(1 for e in body.events if e[0] == "lost")
-                ctx.check(n_lost == 1, "complete-body-not-signalled-before-connection-loss", case,
-                          f"body complete ({m['framing']}) but consumer events are {body.events!r}"[:600])
+            signalled_at_completion("", method, delivered, body)
+        if fu is not None:
+            if fu.get("when") != "reentrant":
+                start_followup("later")
+            if fu_state["started"]:
+                wire2 = build_wire(method2, fu["resp"])
+                plan2 = wire2 if fu.get("trunc") is None else wire2[:fu["trunc"]]
+                for seg in [s for s in harness.apply_cuts(plan2, fu.get("cuts", "whole")) if s]:
+                    if tr.disconnecting or tr.disconnected:
+                        break
+                    proto.dataReceived(seg)
+                    delivered2 += seg
+                if fired2 and fired2[0][0] == "ok":
+                    signalled_at_completion("followup:", method2, delivered2, body2)
+        st_["dead"] = True
         loss = ConnectionLost if case.get("loss") == "lost" else ConnectionDone
         proto.connectionLost(Failure(loss("harness")))
         if deliver[0] != "never":
             give_body()
 
     # ---- oracle ----------------------------------------------------------
-    m = ref_parse(method, delivered)
-    pending = reqbody.startswith("pending")
-    ctx.check(len(fired) == 1, "request-deferred-fired-%d-times" % len(fired), case,
-              f"fired={[(k, repr(v)[:80]) for k, v in fired]} delivered={delivered!r}")
-    kind, val = fired[0]
-    if m["head"] != "ok":
-        ctx.check(kind == "err", "response-without-complete-headers", case,
-                  f"got a response although the header block is {m['head']}: {delivered!r}")
-        if reqbody == "none" and not malformed:
-            if len(delivered) == 0:
-                ctx.check(val.check(ResponseNeverReceived) is not None, "no-bytes-not-ResponseNeverReceived", case, repr(val))
-            else:
-                ctx.check(val.check(ResponseFailed) is not None and val.check(ResponseNeverReceived) is None,
-                          "partial-head-not-ResponseFailed", case, repr(val))
-        ctx.check(not body.events, "body-events-without-response", case, repr(body.events))
-    else:
-        if pending and m["end"] != "done" and kind == "err":
-            # request still being written: RequestTransmissionFailed is the
-            # documented outcome; only exactly-once is asserted (a response,
-            # checked below like any other, is accepted as well).
-            ctx.count("pending-request: failure")
-        else:
-            ctx.check(kind == "ok", "failure-although-headers-complete", case,
-                      f"{val!r} delivered={delivered!r}")
-            ctx.check(isinstance(val, Response) and val.code == m["code"], "wrong-status-code", case,
-                      f"code={getattr(val, 'code', None)} expected {m['code']}")
-            got_h = sorted((n.lower(), v) for n, vs in val.headers.getAllRawHeaders() for v in vs)
-            exp_h = sorted((n, v) for n, v in m["headers"]
-                           if n not in CONTROL or (n == b"content-length" and method == b"HEAD"))
-            ctx.check(got_h == exp_h, "wrong-response-headers", case, f"got {got_h} expected {exp_h}")
-            if deliver[0] != "never":
-                ev = body.events
-                ctx.check(bool(ev) and ev[0][0] == "made" and sum(1 for e in ev if e[0] == "made") == 1,
-                          "body-makeConnection-not-once", case, repr(ev)[:500])
-                losts = [e for e in ev if e[0] == "lost"]
-                ctx.check(len(losts) == 1, "body-connectionLost-%d-times" % len(losts), case, repr(ev)[:500])
-                ctx.check(ev[-1][0] == "lost", "body-data-after-connectionLost", case, repr(ev)[:500])
-                data = b"".join(e[1] for e in ev if e[0] == "data")
-                ctx.check(data == m["body"], "body-bytes-differ", case,
-                          f"delivered {data!r} expected {m['body']!r} ({m['framing']}, {m['region']})")
-                reason = losts[0][1]
-                if m["end"] == "done":
-                    ctx.check(reason.check(ResponseDone) is not None, "complete-body-not-ResponseDone", case,
-                              f"{reason!r} framing={m['framing']}")
-                elif m["end"] == "close":
-                    ctx.check(reason.check(PotentialDataLoss) is not None, "close-delimited-not-PotentialDataLoss", case,
-                              repr(reason))
-                else:
-                    ctx.check(reason.check(ResponseFailed) is not None, "truncated-body-not-ResponseFailed", case,
-                              f"{reason!r} framing={m['framing']} region={m['region']} body so far {m['body']!r}")
+    m = judge("", method, delivered, fired, body, deliver, reqbody, malformed)
+    if fu_state["started"]:
+        judge("followup:", method2, delivered2, fired2, body2, ("cb",), "none", None)
     errs = harness.log_errors(events)
     if errs and reqbody == "none":
         e = errs[0]
@@ -469,7 +560,7 @@ def run_case(ctx, case):
         ctx.violation("logged-error:" + (f.type.__name__ if f is not None else "event"), case,
                       (f.getTraceback()[-1500:] if f is not None else repr(e)[:800]))
     # a failure left in a Response/Deferred must not leak into the log later
-    for k, v in fired:
+    for k, v in fired + fired2:
         if k == "err":
             v.cleanFailure()
 
@@ -502,6 +593,14 @@ def run_case(ctx, case):
         ctx.count("reqbody=" + reqbody)
     if honour and len(delivered) < len(plan):
         ctx.count("paused transport held data back")
+    if st_["sync_segments"]:
+        ctx.count("late deliverBody: held bytes delivered from inside resumeProducing()")
+    if fu_state["started"]:
+        m2 = ref_parse(method2, delivered2)
+        bodiless2 = m2["head"] == "ok" and (m2["framing"] == "none" or (m2["framing"] == "cl" and m2["body"] == b"" and m2["end"] == "done"))
+        ctx.count("follow-up request on the reused connection: " + fu_state["how"] + (", bodiless response" if bodiless2 else ""))
+    elif fu is not None and trunc in (None, len(wire)):
+        ctx.count("follow-up request not possible (connection not reusable)")
 
 
 # --------------------------------------------------------------------------
@@ -582,14 +681,25 @@ def response(draw):
                 resp["body"] = (body or [b"x"])[:3]
                 resp["badsize"] = draw(st.sampled_from([b"0x1", b"-1", b"g", b"+1", b"1 ", b""]))
     deliver = draw(st.sampled_from([("cb",), ("cb",), ("after", 0), ("after", 1), ("after", 3), ("lost",), ("never",)]))
-    return dict(method=method, resp=resp,
+    case = dict(method=method, resp=resp,
                 cuts=draw(harness.cuts_strategy(120, 6)),
                 deliver=deliver,
-                honour_pause=draw(st.booleans()),
+                honour_pause=draw(st.sampled_from([False, True, "sync", "sync"])),
                 persistent=draw(st.booleans()),
                 loss=draw(st.sampled_from(["done", "lost"])),
                 reqbody=draw(st.sampled_from(["none"] * 7 + ["done", "pending", "pending_cl"]))
                 if method == b"POST" else "none")
+    if draw(st.integers(0, 2)) == 0:
+        # history: the connection is persistent and, once this response is
+        # complete, carries a second request (issued from the body consumer's
+        # connectionLost, as chained requests on a pooled connection are, or later)
+        m2, r2 = FOLLOWUPS[draw(st.integers(0, len(FOLLOWUPS) - 1))]
+        case["persistent"] = True
+        resp["conn_close"] = False
+        case["followup"] = dict(when=draw(st.sampled_from(["reentrant", "reentrant", "later"])), method=m2, resp=r2,
+                                cuts=draw(st.sampled_from(["whole", "bytewise", [7], [20, 33]])),
+                                trunc=draw(st.sampled_from([None, None, None, 5, 30])))
+    return case
 
 
 def _r(**kw):
@@ -617,6 +727,18 @@ SMALL = [
 
 DELIVERS = [("cb",), ("after", 0), ("after", 1), ("lost",)]
 
+# responses to a second request on the same connection (half of them bodiless)
+FOLLOWUPS = [
+    (b"GET", _r(framing="cl", body=[], status=204)),
+    (b"GET", _r(framing="cl", body=[b"zz"], status=304)),
+    (b"HEAD", _r(framing="cl", body=[b"hello"])),
+    (b"GET", _r(framing="cl", body=[])),
+    (b"GET", _r(framing="cl", body=[b"second"])),
+    (b"GET", _r(framing="chunked", body=[b"se", b"cond"])),
+    (b"GET", _r(framing="close", body=[b"tail"])),
+    (b"GET", _r(ser="h11", framing="chunked", body=[b"h11"], interim=[[100, []]])),
+]
+
 
 def _small_cases(idx, thorough):
     method, resp = SMALL[idx]
@@ -634,10 +756,20 @@ def _small_cases(idx, thorough):
             for di, deliver in enumerate(DELIVERS):
                 # in-callback delivery resumes the transport before control
                 # returns, so a transport that honours the pause is the same case
-                for honour in ((False,) if deliver[0] == "cb" else (False, True)):
+                # ... and the transport is only ever paused once the header block is complete
+                for honour in ((False,) if deliver[0] == "cb" or t < head_end else (False, True, "sync")):
                     yield dict(method=method, resp=resp, trunc=t, cuts=cuts, deliver=deliver,
                                honour_pause=honour, persistent=bool((t + ci + di) % 2),
                                loss="done" if (t + ci) % 3 else "lost", reqbody="none")
+    # the complete response on a persistent connection, followed by a second request
+    for fi, (m2, r2) in enumerate(FOLLOWUPS):
+        for when in ("reentrant", "later"):
+            for di, deliver in enumerate(DELIVERS[:3]):
+                for cuts in ("whole", "bytewise"):
+                    yield dict(method=method, resp=resp, trunc=None, cuts=cuts, deliver=deliver,
+                               honour_pause=[False, True, "sync"][(fi + di) % 3], persistent=True,
+                               loss="done", reqbody="none",
+                               followup=dict(when=when, method=m2, resp=r2, cuts=cuts, trunc=None))
 
 
 def _small_shard(ctx, idx):
@@ -651,7 +783,7 @@ def _hyp_shard(ctx, i):
 def run(ctx):
     import h11, twisted.web._newclient, twisted.internet.testing  # noqa: before the fork, so the shards share the imports
     ctx.shards(_small_shard, list(range(len(SMALL))))
-    ctx.extra["small_scope"] = f"{len(SMALL)} fixed responses x every truncation x (whole, bytewise, every single cut from the end of the header block on, every 4th inside it) x 4 deliverBody timings x paused-transport on/off"
+    ctx.extra["small_scope"] = f"{len(SMALL)} fixed responses x every truncation x (whole, bytewise, every single cut from the end of the header block on, every 4th inside it) x 4 deliverBody timings x transport pause behaviour (ignore / hold / hold and deliver from resumeProducing), plus 8 follow-up responses x (re-entrant, later) on the reused connection"
     ctx.exhaustive = False
     if ctx.has_violation():
         return
